@@ -48,6 +48,9 @@ type c10Case struct {
 	// platforms do), and the link dies ("eof" | "ioerr" on every read) right AFTER the secret has
 	// been written; whatever the library logs about the failed open must not contain the secret
 	LossAfterSecret string `json:"loss_after_secret,omitempty"`
+	// C11 escalations only: the device REFUSES the secret (its own differs) with a text that is one
+	// of the driver's failed-when strings
+	Refused bool `json:"refused,omitempty"`
 }
 
 var c10Secrets = []string{"p4ssw0rd", "s3cr3t!", "%s%d%v", "a.b*c+?", "redacted", "pa$$(w)[o]rd", "x y z", "päss", "^caret$", "100%!"}
@@ -93,6 +96,9 @@ func genC10(prop string, r *sim.Rng, i int) *c10Case {
 		if c.WriteErr == 0 && r.Chance(1, 3) {
 			c.OnAuth = 0 // the device asks for the secret
 			c.LossAfterSecret = r.Pick([]string{"eof", "ioerr"})
+		} else if c.WriteErr == 0 && r.Chance(1, 3) {
+			c.OnAuth = 0
+			c.Refused = true
 		}
 		return c
 	}
